@@ -59,6 +59,12 @@ class SeriesV:
             if attr in ("any", "all", "sum", "min", "max"):
                 return M("Series." + attr, lambda I, **kw: I.call(I.getattr(lnp.as_arr(I, v), attr, node), [], {}))
             return I.getattr(lnp.as_arr(I, v), attr, node)
+        if attr == "to_numpy":
+            def to_numpy(I, copy=False, **k):
+                a = lnp.as_arr(I, v)
+                # copy=True: a new array with the same contents (stores into it do not reach the frame)
+                return Arr(a.n, a.at, a.kind, a.dtype) if copy else a
+            return M("Series.to_numpy", to_numpy)
         if attr == "cat":
             return _Cat(self)
         if attr == "keys":
@@ -240,7 +246,13 @@ class DataFrameV:
         if attr == "groupby":
             return M("DataFrame.groupby", lambda I, by, **kw: GroupByV(self, by, kw))
         if attr == "copy":
-            return M("DataFrame.copy", lambda I, **kw: DataFrameV(dict(self.cols), self.index, self.runs))
+            def copy(I, **kw):
+                out = DataFrameV(dict(self.cols), self.index, self.runs)
+                for g in ("_filter", "_perm"):        # ghost provenance of the rows travels with a copy
+                    if getattr(self, g, None) is not None:
+                        setattr(out, g, getattr(self, g))
+                return out
+            return M("DataFrame.copy", copy)
         if attr == "drop_duplicates":
             return M("DataFrame.drop_duplicates", lambda I, subset=None, keep="first", **kw: self.drop_duplicates(I, subset, keep))
         if attr == "reset_index":
